@@ -76,7 +76,10 @@ AnnMenu == <<
      \* numbers in rules are reported as written, whatever their spelling
      Ann(<<Rule("min", RNum("2.0")), Rule("max", RNum("12.00"))>>, 0),
      Ann(<<Rule("min", RNum("-0")), Rule("max", RNum("12.000"))>>, 0),
-     Ann(<<Rule("min", RNum("0.50")), Rule("max", RNum("100.0"))>>, 2) >>,
+     Ann(<<Rule("min", RNum("0.50")), Rule("max", RNum("100.0"))>>, 2),
+     \* an enum rule referred to by name (registered with AddRule), as the only rule and followed by another
+     Ann(<<Rule("enum", RRef("@sizes"))>>, 0),
+     Ann(<<Rule("enum", RRef("@sizes")), Rule("optional", RBool("true"))>>, 1) >>,
   \* -0.50
   << Ann(<<Rule("type", RStr("decimal")), Rule("precision", RNum("2"))>>, 0),
      Ann(<<Rule("min", RNum("-1.5"))>>, 1),
@@ -95,7 +98,9 @@ AnnMenu == <<
      \* `or` whose elements are rule-sets and names of format types
      Ann(<<Rule("or", RList(<< RSet(<<Rule("type", RStr("datetime"))>>), RSet(<<Rule("type", RStr("string")), Rule("maxLength", RNum("10"))>>), RStr("email"), RSet(<<Rule("type", RStr("uuid"))>>) >>))>>, 1),
      \* a pattern that does not compile: the project is refused (C16 judges the diagnostic)
-     Ann(<<Rule("regex", RStr("[T"))>>, 0) >>,
+     Ann(<<Rule("regex", RStr("[T"))>>, 0),
+     Ann(<<Rule("enum", RRef("@names"))>>, 2),
+     Ann(<<Rule("nullable", RBool("true")), Rule("enum", RRef("@names"))>>, 0) >>,
   \* "q\"x"
   << Ann(<<Rule("minLength", RNum("3"))>>, 0), Ann(<<>>, 1) >>,
   \* true
@@ -144,7 +149,7 @@ AddProp(v, a) == /\ ~done /\ Len(props) < MaxProps
                  /\ props' = Append(props, [v |-> v, a |-> a]) /\ UNCHANGED <<rootAnn, ctx, done>>
 Finish(r, x) == /\ ~done /\ props # <<>> /\ r \in 0..2 /\ x \in Contexts
                 /\ rootAnn' = r /\ ctx' = x /\ done' = TRUE /\ UNCHANGED props
-Next == (\E v \in 1..Len(ValueMenu), a \in 0..12 : AddProp(v, a)) \/ (\E r \in 0..2, x \in 0..2 : Finish(r, x))
+Next == (\E v \in 1..Len(ValueMenu), a \in 0..16 : AddProp(v, a)) \/ (\E r \in 0..2, x \in 0..2 : Finish(r, x))
 Spec == Init /\ [][Next]_vars
 
 RootAnns == << NoAnn, Ann(<<>>, 1), Ann(<<Rule("additionalProperties", RBool("true"))>>, 2) >>
